@@ -154,7 +154,11 @@ impl PanicRecord {
     pub fn site(&self) -> String {
         let mut parts = self.location.split(':');
         let file = parts.next().unwrap_or("");
-        let file = file.strip_prefix("/repo/").unwrap_or(file);
+        // path below the repository root, wherever the tree under test lives (/repo or a VERIF_REPO worktree)
+        let file = match file.find("/crates/") {
+            Some(i) => &file[i + 1..],
+            None => file.strip_prefix("/repo/").unwrap_or(file),
+        };
         file.to_string()
     }
 }
